@@ -503,6 +503,10 @@ theorem msgcodec_accepted_rx_v1 (tn fn : Nat) (rssi toa256 : Int) (mod tsc : Nat
       (inrange_rx_v1_nope tn fn rssi toa256 mod tsc ci h1 h2 h3 h4 h5 h6 h7) hlay
     rwa [hlen] at this
 
+/-- the `Modulation` enum of the live message codec is the one the Spec speaks about -/
+theorem msg_modulations_live : liveMsgModulations = msgModulations := by
+  decide
+
 /-- every (coding, TSC set) the message codec accepts — except GMSK_AB with TSC set 1 — gives a documented
 modulation nibble with the message codec's own burst length -/
 theorem msgcodec_mod_codes : ∀ coding ∈ List.range 16, ∀ set ∈ List.range 4,
